@@ -69,6 +69,16 @@ func execReason(c ReasonCase) (v ev.Verdict) {
 			continue
 		}
 		live := m.Live()
+		if op.Crash != "" {
+			// the build is killed at a named point (in or around a body, while a record is written): the next
+			// build finds whatever records that left and must still name exactly the parts that differ
+			if len(live) > 0 {
+				sim.ChildBuild(projsim.BuildReq{Label: m.Label(live[op.T%len(live)]), CrashSite: op.Crash, CrashHit: op.CrashHit})
+				sim.SkipLog()
+				v.Classes = append(v.Classes, "after-interrupted-build")
+			}
+			continue
+		}
 		var twinEvents []projsim.Event
 		if op.Always {
 			// a forced build: what differs is taken from an ordinary build of a full copy of tree and state
@@ -138,6 +148,9 @@ func genReason(t *rapid.T) ReasonCase {
 		if rapid.IntRange(0, 2).Draw(t, "isbuild") == 2 {
 			b := projsim.GenBuild(t, false, false, false)
 			b.Always = rapid.IntRange(0, 3).Draw(t, "forced") == 3
+			if !b.Always && rapid.IntRange(0, 4).Draw(t, "interrupt") == 4 {
+				b = projsim.GenCrash(t, b)
+			}
 			ops = append(ops, b)
 		} else if rapid.IntRange(0, 5).Draw(t, "oldrec") == 5 {
 			ops = append(ops, projsim.Op{Kind: "old-record", T: rapid.IntRange(0, 11).Draw(t, "ort")})
